@@ -268,8 +268,17 @@ def handle (j : Json) : Except String Json := do
         ("pooled", match b.pooled with | none => .null | some s => .str s)])
   | "table" =>
     let kind ← getStr j "kind"
-    let cols ← getRatMatrix j "cols"
     let w ← getRats j "w"
+    -- value columns: given directly, or the identification function of (y, pred) for `compute_bias`
+    let cols ← match j.getObjVal? "ident_f" with
+      | .ok (.str f) => do
+        let α ← getRat j "level"
+        let y ← getRats j "y"
+        let pred ← getRats j "pred"
+        match identArr (Functional.ofString? f) α y pred with
+        | .ok v => pure [v]
+        | .error e => throw s!"ident error {errName e}"
+      | _ => getRatMatrix j "cols"
     let rowJson (r : OutRow Rat) : Json := Json.mkObj [("key", keyJson r.key), ("feat", cellToJson r.featMean),
       ("count", .num ⟨(r.count : Int), 0⟩), ("weights", ratToJson r.weights),
       ("stats", .arr (r.stats.map (fun s => Json.arr #[ratToJson s.mean, ratToJson s.stderr2])).toArray),
